@@ -1039,3 +1039,70 @@ func ruleSightingWakesIncluder(c *Check, p *Prog, rule string) {
 		c.Unk(rule, "DA handlers", "", "", "anchor lost: no DA blob handler with an admission predicate and a wake-up")
 	}
 }
+
+// ruleWorkerEndsOnlyStoppedOrReported (C07-R13 / C13-R16 / C02-R16): a worker that was handed the
+// node's error channel ends in exactly two ways — its own context is done, or it has told the node
+// why (a send on the channel, which makes the node stop and be restarted). A return that is
+// neither leaves the rest of the node running without the worker: signals are still raised, nobody
+// consumes them, and what the worker advances stands still for the life of the process. What the
+// worker's *context* says is read from the context (Done, Err), not guessed from an error value
+// that merely wraps a cancellation or a deadline of some inner request.
+func ruleWorkerEndsOnlyStoppedOrReported(c *Check, p *Prog, rule string, workers []string) {
+	c.Doc(rule, "EO: every return of a worker loop that takes the node's error channel is behind an edge that reads the worker's own context as done (a ctx.Done() case, ctx.Err() != nil) or behind a send on that channel; the one frozen exception is the aggregation loop's failed first read of the store height (pinned behaviour: logged, the node is not told).")
+	n := 0
+	for _, w := range workers {
+		fn := p.Func(mgrM(w))
+		if fn == nil || fn.Blocks == nil {
+			continue
+		}
+		var chParam *ssa.Parameter
+		for _, prm := range fn.Params {
+			if ch, ok := prm.Type().Underlying().(*types.Chan); ok && ch.Elem().String() == "error" {
+				chParam = prm
+			}
+		}
+		if chParam == nil {
+			continue
+		}
+		n++
+		g := BuildECFG(p, fn, ownPkgOpts(rootPath+"/block", 2))
+		c.NoteGraph(g)
+		sends := func(x *Node) bool {
+			sd, ok := x.In.(*ssa.Send)
+			if ok && x.Kind == NInstr {
+				t := TermOf(sd.Chan, x.Ctx)
+				return t != nil && t.V == ssa.Value(chParam)
+			}
+			// a send that is a select case
+			if sel, ok := x.In.(*ssa.Select); ok && x.Kind == NInstr {
+				for _, st := range sel.States {
+					if st.Dir == types.SendOnly {
+						if t := TermOf(st.Chan, x.Ctx); t != nil && t.V == ssa.Value(chParam) {
+							return true
+						}
+					}
+				}
+			}
+			return false
+		}
+		done := nodeSet(ctxDoneEdges(g))
+		ctxErr := EdgeWhere(func(t *Term, pol bool, _ *Node) bool {
+			t, pol = normFact(t, pol)
+			return t.Op == "bin" && len(t.Args) == 2 && t.Args[0].Op == "invoke" && t.Args[0].Name == "(context.Context).Err" && t.Args[1].Name == "nil" && ((t.Name == "!=" && pol) || (t.Name == "==" && !pol))
+		})
+		avoid := orPred(sends, done, ctxErr)
+		if w == "AggregationLoop" {
+			// frozen exception, one edge: the failed read of the store height before the loop starts
+			avoid = orPred(avoid, func(x *Node) bool {
+				return x.Ctx.Depth == 0 && ErrNotNilEdge(func(t *Term) bool { return t.Op == "invoke" && strings.HasSuffix(t.Name, "pkg/store.Store).Height") })(x)
+			})
+		}
+		path := g.PathAvoiding([]*Node{g.Entry}, nodeSet(g.Exits), avoid)
+		c.Decide(rule, w+" ⟂ ends only stopped or after reporting", fnName(fn), p.Pos(fn.Pos()),
+			"every return is behind the worker's own context being done or a report on the node's error channel",
+			"the worker can end while the node keeps running and without telling it: a return that is behind neither the worker's own context being done (ctx.Done(), ctx.Err()) nor a send on the error channel — for example an error that merely wraps a cancellation or deadline of an inner request, taken for a shutdown. The rest of the node goes on, the signals meant for this worker are never consumed again, and what it advances stands still until the process is restarted by hand", g, path)
+	}
+	if n == 0 {
+		c.Unk(rule, "anchor-count", "", "", "anchor lost: no worker that takes the error channel")
+	}
+}
